@@ -431,6 +431,7 @@ class Repo(object):
             objflat.dataclass_constructors(tree)
             objflat.classmethod_constructors(tree)
             objflat.plain_local_assignments(tree)
+            objflat.splice_starred_displays(tree)
             objflat.merge_registry(tree)
             objflat._link(tree)
             objflat.expand_element_attributes(tree)
